@@ -129,5 +129,8 @@ Why(c) == (IF HtmlPreserved(c) THEN <<>> ELSE <<<<"html", 0>>>>)
           \o RfFails(c, 1)
 
 CaseOK(c) == ~Bad(c)
-Inv == k = 0 \/ CaseOK(Cases[k]) \/ PrintT(<<"BAD", k, Why(Cases[k])>>)
+\* one short line per violated relation (TLC wraps long values over several lines, which the reader of
+\* the output does not reassemble)
+Report(n, w) == \A i \in DOMAIN w : PrintT(<<"BAD", n, w[i][1], w[i][2]>>)
+Inv == k = 0 \/ CaseOK(Cases[k]) \/ Report(k, Why(Cases[k]))
 =============================================================================
